@@ -211,6 +211,8 @@ structure Parsed (R : Type) where
   text : PMap := []
   texts : List (Str × List Str) := []
   given : PMap := []
+  /-- names of the grids the constructor has loaded (`params.grids`), in list order -/
+  grids : List Str := []
   deriving Inhabited
 
 namespace Parsed
